@@ -274,7 +274,7 @@ def run(ctx, only_cases=None):
     try:
         pinfo = vlib.coq_properties(PROP)
         vlib.proof_coverage(ctx, pinfo, "make -C coq Properties/C09.vo && coqc Properties/C09.v (Print Assumptions audit)",
-                            extra_obligations=7)  # the regenerated side conditions of Proofs/SideC09.v
+                            extra_obligations=9)  # the 7 regenerated side conditions + 2 deployment lemmas of Proofs/SideC09.v
     except vlib.Broken as b:
         broken = b   # keep going: search the implementation for a concrete failing input first
 
@@ -320,7 +320,7 @@ def run(ctx, only_cases=None):
     try:
         res, pred = vlib.model_eval(PROP, terms, predict=True)
         mism = [idx[k] for k, ok in enumerate(res) if not ok]
-        n_amb_model = sum(p.count(" n1 n") for p in pred if p)   # rough count of ambiguous steps (second flag)
+        n_amb_model = sum(len(vlib.re.findall(r"\[n[01] n1 ", p)) for p in pred if p)   # steps whose answers at t0-eps / t1+eps differ
         small = [k for k in range(len(terms)) if len(json.dumps(cases[idx[k]])) < 3000]
         small = small[:: max(1, len(small) // 30)][:30]
         vm_bad = sorted(small[j] for j in vlib.vm_crosscheck(PROP, [terms[k] for k in small]))
